@@ -54,9 +54,10 @@ def _skip_stmt(toks, i):
 
 
 def _strip_param_types(params):
-    """closure params token list (between the bars) -> without `: Type` parts."""
+    """closure params: list of (tok, idx) between the bars -> without `: Type` parts."""
     out, depth, angle, skipping = [], 0, 0, False
-    for t in params:
+    for pr in params:
+        t = pr[0]
         if t in ("(", "[", "{"):
             depth += 1
         elif t in (")", "]", "}"):
@@ -74,15 +75,24 @@ def _strip_param_types(params):
             skipping = False
             angle = 0
         if not skipping:
-            out.append(t)
+            out.append(pr)
     return out
 
 
 def erase(toks):
+    return [t for t, _ in erase_idx(toks)]
+
+
+def erase_idx(toks, off=0):
+    """-> list of (token, index into the annotated token list, or None for synthesised tokens)"""
     toks = list(toks)
     out = []
     unwrap_close = set()   # indices of '}' tokens to drop (closing brace of an annotated closure body)
     i, n = 0, len(toks)
+
+    def last():
+        return out[-1][0] if out else ""
+
     while i < n:
         t = toks[i]
         nxt = toks[i + 1] if i + 1 < n else ""
@@ -99,31 +109,31 @@ def erase(toks):
             # exec const N : T ensures ... { e }   ->   const N : T = e ;
             j = i + 1
             while toks[j] not in SPEC_KW and toks[j] != "{":
-                out.append(toks[j])
+                out.append((toks[j], off + j))
                 j += 1
             b = _skip_to_body(toks, j)
             e = match_close(toks, b)
-            out.append("=")
-            out.extend(erase(toks[b + 1:e]))
-            out.append(";")
+            out.append(("=", None))
+            out.extend(erase_idx(toks[b + 1:e], off + b + 1))
+            out.append((";", None))
             i = e + 1
             continue
         if t == "->" and nxt == "(" and i + 3 < n and toks[i + 3] == ":" and toks[i + 2] not in ("(",):
             close = match_close(toks, i + 1)
-            ty = toks[i + 4:close]
-            is_closure = bool(out) and out[-1] in ("|", "||")
+            is_closure = last() in ("|", "||")
             if is_closure:
                 # annotated closure: | p : T | -> ( r : T ) ensures .. { body }   ->   | p | body
-                if out[-1] == "|":
+                if last() == "|":
                     k = len(out) - 2
-                    while k >= 0 and out[k] != "|":
+                    while k >= 0 and out[k][0] != "|":
                         k -= 1
                     if k < 0:
                         raise EraseError("closure opening bar not found")
+                    bar = out[-1]
                     params = _strip_param_types(out[k + 1:len(out) - 1])
                     del out[k + 1:]
                     out.extend(params)
-                    out.append("|")
+                    out.append(bar)
                 j = close + 1
                 if j < n and toks[j] in SPEC_KW:
                     j = _skip_to_body(toks, j)
@@ -133,8 +143,9 @@ def erase(toks):
                 unwrap_close.add(e)
                 i = j + 1
                 continue
-            out.append("->")
-            out.extend(ty)
+            out.append(("->", off + i))
+            for q in range(i + 4, close):
+                out.append((toks[q], off + q))
             i = close + 1
             continue
         if t in SPEC_KW:
@@ -143,11 +154,11 @@ def erase(toks):
         if t == "else" and nxt == "{":
             # a ghost-only `else { proof {..} }` branch added for the proof disappears completely
             e = match_close(toks, i + 1)
-            inner = erase(toks[i + 2:e])
+            inner = erase_idx(toks[i + 2:e], off + i + 2)
             if not inner and e > i + 2:
                 i = e + 1
                 continue
-            out.extend(["else", "{"] + inner + ["}"])
+            out.extend([("else", off + i), ("{", off + i + 1)] + inner + [("}", off + e)])
             i = e + 1
             continue
         if t == "proof" and nxt == "{":
@@ -178,16 +189,16 @@ def erase(toks):
                     elif angle <= 0 and toks[j] in (",", ")"):
                         break
                     j += 1
-            if out and out[-1] == ",":
+            if last() == ",":
                 out.pop()
             elif j < n and toks[j] == ",":
                 j += 1
             i = j
             continue
-        if out and out[-1] == "in" and nxt == ":" and t.isidentifier():
+        if last() == "in" and nxt == ":" and t.isidentifier():
             # for x in it: expr
             i += 2
             continue
-        out.append(t)
+        out.append((t, off + i))
         i += 1
     return out
